@@ -173,6 +173,11 @@ func (ex *Exec) verifyFunc(key string) error {
 		if sp != nil && sp.HasMod {
 			ex.checkFrame(st2, fr, sp, key)
 		}
+		if sp != nil && sp.TrustResult != "" {
+			ex.use("assumed: objinv(result) of " + key + ": " + sp.TrustResult)
+		} else {
+			ex.resultObjInvs(st2, fr, key, ret, true)
+		}
 		if len(st2.held) > 0 && (sp == nil || len(sp.Holds) == 0) {
 			ex.lockLeak(st2, fr)
 		}
@@ -317,7 +322,7 @@ func cmdCheck(args []string) int {
 		}
 	}
 	ex.activeClass = map[int]bool{}
-	if P == "C15" || *only != "" {
+	if P == "C15" || P == "ALL" || *only != "" {
 		for _, cc := range specs.ClassList {
 			ex.activeClass[cc.ID] = true
 		}
@@ -331,23 +336,26 @@ func cmdCheck(args []string) int {
 	for _, k := range keys {
 		ex.inRun[k] = true
 	}
-	if P == "C15" {
+	if P == "C15" || P == "ALL" {
 		ex.inRun = nil // every function in scope is verified
 	}
 	ex.propFilter = func(labels []string) bool {
 		for _, l := range labels {
-			if l == "*" || l == P || strings.HasPrefix(l, P+".") {
+			if l == "*" || l == P || strings.HasPrefix(l, P+".") || P == "ALL" {
 				return true
 			}
 		}
 		return false
 	}
 	drift := false
-	if P == "C15" {
+	if P == "C15" || P == "ALL" {
 		keys = nil
 		for _, k := range prog.scopeFuncKeys() {
 			if *only != "" && k != *only {
 				continue
+			}
+			if sp := specs.Funcs[k]; P == "ALL" && sp != nil && sp.Inline && prog.Funcs[k].Parent() != nil {
+				continue // verified inside its parent
 			}
 			keys = append(keys, k)
 		}
@@ -1345,6 +1353,39 @@ func (ex *Exec) closeRun(keys []string) []string {
 				}
 			}
 		}
+		// object invariants relied on in this run are established where objects of the type are created:
+		// every function that allocates such an object (constructors prove objinv(result))
+		objT := map[string]bool{}
+		for tk, cs := range ex.specs.ObjInvs {
+			for _, c := range cs {
+				if ex.propFilter != nil && ex.propFilter(c.Labels) {
+					objT[tk] = true
+				}
+			}
+		}
+		for _, k := range ex.prog.scopeFuncKeys() {
+			if have[k] || len(objT) == 0 {
+				continue
+			}
+			if sp := ex.specs.Funcs[k]; sp != nil && (sp.Trusted || (sp.Inline && ex.prog.Funcs[k].Parent() != nil)) {
+				continue
+			}
+			fn := ex.prog.Funcs[k]
+			hit := false
+			for _, b := range fn.Blocks {
+				for _, in := range b.Instrs {
+					if a, ok := in.(*ssa.Alloc); ok && a.Heap {
+						if el := derefType(a.Type()); el != nil && objT[typeKey(el)] {
+							hit = true
+						}
+					}
+				}
+			}
+			if hit {
+				have[k] = true
+				keys = append(keys, k)
+			}
+		}
 		// declared function fields whose function is verified in this run: every store to the field
 		fnOrigins := map[string]bool{}
 		for o, target := range ex.specs.FnFields {
@@ -1420,4 +1461,44 @@ func (ex *Exec) closeRun(keys []string) []string {
 		}
 	}
 	return keys
+}
+
+// resultObjInvs: an object handed out as a result satisfies its type's object invariant (this is
+// where constructors establish it). prove=true: obligations at the return of a verified function;
+// prove=false: the same facts assumed for the result of a call under contract.
+func (ex *Exec) resultObjInvs(st *State, fr *Frame, key string, ret Val, prove bool) {
+	var comps []Val
+	if _, isTuple := ret.Typ.(*types.Tuple); isTuple {
+		comps = ret.Elems
+	} else if ret.Typ != nil {
+		comps = []Val{ret}
+	}
+	for i, r := range comps {
+		if r.Typ == nil {
+			continue
+		}
+		if _, isIface := types.Unalias(r.Typ).Underlying().(*types.Interface); isIface {
+			if r.Dyn == nil {
+				if kv, ok := ex.known[r.T]; ok && kv.Dyn != nil {
+					r.Dyn = kv.Dyn
+				}
+			}
+			if r.Dyn == nil {
+				continue
+			}
+			r = *r.Dyn
+		}
+		el := derefType(r.Typ)
+		if el == nil || structOf(el) == nil {
+			continue
+		}
+		for _, c := range ex.specs.ObjInvs[typeKey(el)] {
+			g := smtImp("(distinct "+r.T+" 0)", ex.evalClause(st, fr, c, map[string]Val{"self": r}))
+			if prove {
+				ex.oblige(st, "objinv", fmt.Sprintf("%s/result%d.objinv.%s", key, i, c.name()), c.Labels, g, c, ex.posOf(fr.retInstr))
+			} else {
+				st.assume(g)
+			}
+		}
+	}
 }
